@@ -6,6 +6,7 @@ import PynModel.Process.Convolve
 import PynModel.Process.Spectrum
 import PynModel.Process.Tuning
 import PynModel.Core.NumpyWrap
+import PynModel.Kernels.Eta
 /-!
 # Line protocol, part 2: container-level operations (series constructor and histories)
 `snew <t> <rows> <sup|none>`            → `t|rows|sup|num/den`
@@ -254,6 +255,20 @@ def wrapStep (toks : List String) : String :=
     else "bad-op"
   | _ => "bad-op"
 
+/-- `eta ta ca tt dd st en w0 w1 bs` → the rows as exact fractions `num/den` -/
+def etaStep (toks : List String) : String :=
+  match toks with
+  | ["eta", ta, ca, tt, dd, st, en, w0, w1, bs] =>
+    match parseArr ta, parseArr ca, parseArr tt, parseArr dd, parseArr st, parseArr en, w0.toNat?, w1.toNat?, bs.toInt? with
+    | some ta, some ca, some tt, some dd, some st, some en, some w0, some w1, some bs =>
+      if h : st.size = en.size ∧ ca.size = ta.size then
+        match eventTriggerAverage ta ca tt dd st en h.1 h.2 w0 w1 bs with
+        | .ok r => ",".intercalate (r.toList.map fun q => s!"{q.num}/{q.den}")
+        | .error e => showErr e
+      else "pre-fail"
+    | _, _, _, _, _, _, _, _, _ => "bad-op"
+  | _ => "bad-op"
+
 def stepAll (line : String) : String :=
   let toks := (line.trimAscii.toString.splitOn " ").filter (· ≠ "")
   match toks with
@@ -270,6 +285,7 @@ def stepAll (line : String) : String :=
   | "tint" :: _ => metaStep toks
   | "tdiff" :: _ => metaStep toks
   | "tsplit" :: _ => metaStep toks
+  | "eta" :: _ => etaStep toks
   | _ => kernelStep toks
 
 end Pyn
